@@ -276,10 +276,15 @@ def check_object(ctx, spec, obj, tol, where):
                   got=A.shape, want=want_shape)
         want = ideal_endpoints_of(Pr.astype(float))
         Ar = np.real(A).astype(float)
+        # (the ideal endpoints of a very short segment are an extrapolation: rounding of the
+        # endpoints is amplified by (size / length)^2, for the library and for the harness)
+        Kp = Pr[..., 1:].astype(float) / Pr[..., :1].astype(float)
+        ln2 = np.sum((Kp[..., 0, :] - Kp[..., 1, :]) ** 2, axis=-1)
+        amp = np.maximum(1.0, 1e-7 / np.maximum(ln2, 1e-300))
         ctx.small("ideal endpoints are those of the line through the endpoints (%s)" % where,
-                  unordered_pair_dist(Ar, want), max(tol, 1e-7) * 30)
+                  unordered_pair_dist(Ar, want) / amp, max(tol, 1e-7) * 30)
         ctx.small("ideal endpoints lightlike (%s)" % where,
-                  mink(Ar, Ar) / np.sum(Ar * Ar, axis=-1), max(tol, 1e-7) * 30)
+                  mink(Ar, Ar) / np.sum(Ar * Ar, axis=-1) / amp[..., None], max(tol, 1e-7) * 30)
     elif spec.name == "tangent":
         want_shape = shape + (2, spec.n + 1)
         ctx.check(A.shape == want_shape, "tangent aux shape", where=where, got=A.shape,
